@@ -35,10 +35,10 @@ DEPTHS = list(range(0, MAXDEPTH + 1))
 
 BOUNDS = {
     "quick": dict(Scope="q", FullDepth=3, Levels=1, MaxN1=1, MaxN2=2,
-                  n_random_pts=1500, n_rs_pts=120, cover_conc=6, cover_rand=160, cover_rs_rand=40, cover_star=400, pairs_star=300,
+                  n_random_pts=1500, n_rs_pts=120, cover_conc=6, cover_rand=160, cover_rs_rand=40, cover_star=400, pairs_star=300, HistN2=1, HistCalls=2, hist_rand=150, hist_rs_rand=50,
                   pairs_rand=500, pairs_rs_rand=200, cap_cover=2e5, cap_pairs=3e4, cap_span=2e4),
     "thorough": dict(Scope="t", FullDepth=5, Levels=2, MaxN1=1, MaxN2=2,
-                     n_random_pts=40000, n_rs_pts=414, cover_conc=8, cover_rand=3000, cover_rs_rand=500, cover_star=5000, pairs_star=3000,
+                     n_random_pts=40000, n_rs_pts=414, cover_conc=8, cover_rand=3000, cover_rs_rand=500, cover_star=5000, pairs_star=3000, HistN2=1, HistCalls=3, hist_rand=2500, hist_rs_rand=800,
                      pairs_rand=6000, pairs_rs_rand=3000, cap_cover=2e6, cap_pairs=6e4, cap_span=6e4),
 }
 LIST_MAX = 48          # intersect lists up to this length are written out and re-projected by TLC
@@ -110,9 +110,24 @@ def lookup_block(args):
     lay = hl.LAYOUTS[bi % len(hl.LAYOUTS)]
     arr = {}
     err = "none"
+    reuse = bi % 2 == 0 and len(pts) >= 2
+    if reuse:
+        # a history on each HTM object: the SAME two ndarray objects carry the first half of the block, are
+        # overwritten in place and carry the second half (the object is shared by all calls of this process anyway)
+        lay = "reused_buffers"
+        m = (len(pts) + 1) // 2
+        rbuf, dbuf = np.empty(m), np.empty(m)
     for d in DEPTHS:
         try:
-            res = htm(d).lookup_id(hl.layout(ra, lay), hl.layout(dec, lay))
+            if reuse:
+                parts = []
+                for half in (pts[:m], pts[len(pts) - m:]):
+                    rbuf[:] = [q[0] for q in half]
+                    dbuf[:] = [q[1] for q in half]
+                    parts.append(np.array(htm(d).lookup_id(rbuf, dbuf)))
+                res = np.concatenate([parts[0], parts[1][m - (len(pts) - m):]])
+            else:
+                res = htm(d).lookup_id(hl.layout(ra, lay), hl.layout(dec, lay))
             res = np.asarray(res)
             if res.shape != (len(pts),):
                 raise ValueError("shape")
@@ -143,13 +158,14 @@ GC_EPS_COVER = ["1e-2", "1e-3", "2e-4", "1e-4", "4e-5"]
 
 
 def cover_eps_choices(case):
-    """eps values for which the radius a + h*eps/2 lies in [1e-4, 90] degrees"""
+    """eps values for which the radius a + h*eps/2 lies in [1e-4, 180) degrees (the statement has no upper bound;
+    above 90 degrees the circle is the complement of a small cap - negative cosine)"""
     if case["lat"] != "gc":
         return ["-"]
     ok = []
     for k in GC_EPS_COVER:
         r = hl.gc_half(case["rad"], hl.EPS[k])
-        if F(1, 10 ** 4) <= r <= 90:
+        if F(1, 10 ** 4) <= r < 180:
             ok.append(k)
     return ok
 
@@ -224,12 +240,14 @@ def rand_cover_cases(rng, n, lat, rs_pts):
         if lat == "gc":
             c = (rng.choice([0, 1, 44, 45, 89, 90, 91, 179, 180, 270, 359, rng.randrange(360)]), rng.randrange(-3, 4))
             style = rng.random()
-            if style < 0.4:
+            if style < 0.35:
                 rad = (0, rng.choice([1, 3, 5, 7, 9, 15, 31]))
-            elif style < 0.8:
+            elif style < 0.7:
                 rad = (rng.choice([1, 2, 5, 10, 30, 45, 60, 89, rng.randrange(1, 90)]), rng.choice([-5, -3, -1, 1, 3, 5]))
+            elif style < 0.87:
+                rad = (90, rng.choice([-1, -3, -7, 1, 3]))
             else:
-                rad = (90, rng.choice([-1, -3, -7]))
+                rad = (rng.choice([91, 100, 120, 135, 150, 170, 179, rng.randrange(91, 180)]), rng.choice([-5, -3, -1, 1, 3, 5]))
             probes = set()
             for s in (-1, 1):
                 for t in (-5, -3, -1, 1, 3, 5):
@@ -244,6 +262,8 @@ def rand_cover_cases(rng, n, lat, rs_pts):
             p = rng.randrange(0, q)              # cos in [0, 1): radius in (0, 90]
             if rng.random() < 0.3:
                 p = q - 1
+            elif rng.random() < 0.4:
+                p = -rng.randrange(1, q)         # cos in (-1, 0): radius in (90, 180)
             g = np.gcd(p, q)
             out.append({"kind": "cover", "lat": "rs", "c": list(c), "rad": [int(p // g), int(q // g)],
                         "probes": [list(x) for x in rs_pts]})
@@ -268,12 +288,14 @@ def rand_star_cover(rng, n):
     out = []
     for _ in range(n):
         style = rng.random()
-        if style < 0.4:
+        if style < 0.35:
             rad = (0, rng.choice([1, 3, 5, 7, 9, 15, 31, 101]))
-        elif style < 0.85:
+        elif style < 0.75:
             rad = (rng.choice([1, 2, 5, 10, 30, 45, 60, 89, rng.randrange(1, 90)]), rng.choice([-5, -3, -1, 1, 3, 5]))
+        elif style < 0.9:
+            rad = (90, rng.choice([-1, -3, -7, 1, 3]))
         else:
-            rad = (90, rng.choice([-1, -3, -7]))
+            rad = (rng.choice([91, 100, 120, 135, 150, 170, 179, rng.randrange(91, 180)]), rng.choice([-5, -3, -1, 1, 3, 5]))
         ndir = rng.choice([8, 16, 24])
         phi0 = rng.uniform(0.0, 360.0)
         probes, dirs = [[0, 0]], [0.0]
@@ -441,6 +463,120 @@ def run_pairs(job):
     return rec, meta
 
 
+def _allowed_depths(ra1, ra2, dec2, ang, cap_pairs, cap_span):
+    ids12 = np.asarray(htm(12).lookup_id(np.array(ra2), np.array(dec2)))
+    ds = []
+    for d in range(1, 13):
+        sh = 2 * (12 - d)
+        span = int(ids12.max() >> sh) - int(ids12.min() >> sh) + 1
+        if len(ra1) * hl.trixels_in_cap(ang, d) <= cap_pairs and span <= cap_span:
+            ds.append(d)
+    return ds or [1]
+
+
+def history_eps_choices(case):
+    if case["lat"] != "gc":
+        return ["-"]
+    ok = None
+    for c in case["calls"]:
+        ks = set(pairs_eps_choices(dict(c, lat="gc", edges=c.get("edges", case.get("edges")), scale=c.get("scale", case.get("scale")))))
+        ok = ks if ok is None else ok & ks
+    return [k for k in GC_EPS_PAIRS if k in (ok or set())]
+
+
+def concretise_history(case, rng, B):
+    epss = history_eps_choices(case)
+    if not epss:
+        return []
+    return [{"abs": case, "circle": rng.randrange(len(hl.CIRCLES)) if case["lat"] == "gc" else 0, "eps": rng.choice(epss),
+             "unit": rng.choice([1, 1, 2, 1024, F(1, 8)]), "pick": rng.randrange(1 << 30),
+             "cap_pairs": B["cap_pairs"], "cap_span": B["cap_span"]}]
+
+
+def run_history(job):
+    """(Overwrite ; Bincount)* on ONE fresh HTM object; ra1/dec1/ra2/dec2/scale/htmid2 are the same ndarray
+    objects throughout, their contents replaced in place before every call.  Returns one record whose calls are
+    each judged by brute force on their own contents."""
+    import esutil
+    import esutil.stat
+    c = job["abs"]
+    lat = c["lat"]
+    eps = hl.EPS[job["eps"]] if lat == "gc" else None
+    circle = hl.CIRCLES[job["circle"]]
+    rng = random.Random(job["pick"])
+    calls = [dict(cl, edges=cl.get("edges", c.get("edges")), scale=cl.get("scale", c.get("scale"))) for cl in c["calls"]]
+    conc = []
+    ds = None
+    for cl in calls:
+        ra1, dec1 = hl.points(lat, cl["p1"], circle, eps)
+        ra2, dec2 = hl.points(lat, cl["p2"], circle, eps)
+        rmin, rmax, nbin, sc = hl.bin_args(lat, cl["edges"], cl["scale"], eps, job["unit"])
+        conc.append((ra1, dec1, ra2, dec2, rmin, rmax, nbin, sc))
+        d1 = set(_allowed_depths(ra1, ra2, dec2, hl.max_angle_deg(lat, cl["edges"], cl["scale"], eps), job["cap_pairs"], job["cap_span"]))
+        ds = d1 if ds is None else ds & d1
+    depth = rng.choice(sorted(ds)) if ds else 1
+    rec = {"kind": "history", "lat": lat, "calls": []}
+    meta = {"depth": depth, "calls": []}
+    try:
+        h = esutil.htm.HTM(depth)
+        n1, n2 = len(conc[0][0]), len(conc[0][2])
+        b1a, b1d, b2a, b2d = np.empty(n1), np.empty(n1), np.empty(n2), np.empty(n2)
+        bsc = np.empty(len(conc[0][7])) if conc[0][7] is not None else None
+        bids = np.empty(n2, dtype="i8")
+        herr = "none"
+    except Exception as e:  # noqa
+        herr = _ename(e)
+    for k, (cl, (ra1, dec1, ra2, dec2, rmin, rmax, nbin, sc)) in enumerate(zip(calls, conc)):
+        obs = []
+        if herr == "none":
+            b1a[:], b1d[:], b2a[:], b2d[:] = ra1, dec1, ra2, dec2            # Overwrite: same objects, new contents
+            scarg = None
+            if sc is not None:
+                bsc[:] = sc
+                scarg = bsc
+            for var in ("plain", "ids", "plain", "ids_rev"):
+                o = {"var": "%s@%d#%d" % (var, depth, k + 1), "err": "none", "counts": []}
+                try:
+                    kw = {} if scarg is None else {"scale": scarg}
+                    if var != "plain":
+                        bids[:] = h.lookup_id(b2a, b2d)
+                        kw["htmid2"] = bids
+                        if var == "ids_rev":
+                            kw["minid"], kw["maxid"] = bids.min(), bids.max()
+                            kw["htmrev2"] = esutil.stat.histogram(bids - bids.min(), rev=True)[1]
+                    cn = np.asarray(h.bincount(rmin, rmax, nbin, b1a, b1d, b2a, b2d, **kw)[2])
+                    o["counts"] = [int(v) for v in cn.ravel()]
+                except Exception as e:  # noqa
+                    o["err"] = _ename(e)
+                obs.append(o)
+        else:
+            obs.append({"var": "new_object", "err": herr, "counts": []})
+        rec["calls"].append({"p1": cl["p1"], "p2": cl["p2"], "edges": cl["edges"], "scale": cl["scale"], "obs": obs})
+        meta["calls"].append({"rmin": rmin, "rmax": rmax, "nbin": nbin, "scale_arg": sc})
+    return rec, meta
+
+
+def rand_history_cases(rng, n, lat, rs_pts):
+    """histories of 3..5 calls over point sets of one size (the buffers are re-used), bins and scale kind fixed"""
+    out = []
+    while len(out) < n:
+        base = rand_pairs_cases(rng, 1, lat, rs_pts)[0]
+        n1, n2 = min(len(base["p1"]), 6), min(len(base["p2"]), 20)
+        pool = [list(p) for p in (base["p1"] + base["p2"])]
+        if lat == "gc":
+            A = sorted({p[0] for p in pool})
+            bm = max(abs(p[1]) for p in pool)
+            mk = lambda: [rng.choice(A), rng.randrange(-bm, bm + 1)]           # noqa
+        else:
+            mk = lambda: list(rng.choice(rs_pts))                              # noqa
+        calls = []
+        for _ in range(rng.choice([3, 4, 5])):
+            sc = base["scale"] if len(base["scale"]) <= 1 else [rng.choice(sorted(set(base["scale"]))) for _ in range(n1)]
+            calls.append({"p1": [mk() for _ in range(n1)], "p2": [mk() for _ in range(n2)], "edges": base["edges"], "scale": sc})
+        out.append({"kind": "history", "lat": lat, "calls": calls})
+    return out
+
+
 def rand_pairs_cases(rng, n, lat, rs_pts):
     out = []
     while len(out) < n:
@@ -529,12 +665,19 @@ def judge(ctx, items, what):
                 sig = "intersect|%s|%s" % (cl, _cover_class(rec, meta))
                 msg = "intersect(ra=%r, dec=%r, radius=%r) at depth %d violates clause %s (%d listed, %d full)" % (
                     meta["ra"], meta["dec"], meta["radius"], rec["depth"], cl, meta["nincl"], meta["nfull"])
+            elif rec["kind"] == "history":
+                k = next((n for n, c in enumerate(rec["calls"]) if n >= (1 if cl.startswith("after_overwrite_") else 0)), 0)
+                sig = "bincount|%s|%s" % (cl, _pairs_class(rec["calls"][k], cl.replace("after_overwrite_", "")))
+                msg = ("history of %d bincount calls on one HTM(%d) object with the same array objects overwritten in place: clause %s; "
+                       "per call (rmin, rmax, nbin, scale) %s observed %s" % (
+                           len(rec["calls"]), meta["depth"], cl, [(m["rmin"], m["rmax"], m["nbin"], m["scale_arg"]) for m in meta["calls"]],
+                           [[(o["var"], o["err"], o["counts"]) for o in c["obs"]] for c in rec["calls"]]))
             else:
                 sig = "bincount|%s|%s" % (cl, _pairs_class(rec, cl))
                 msg = "bincount(rmin=%r, rmax=%r, nbin=%d, scale=%s) differs from the brute-force count: clause %s; observed %s %s" % (
                     meta["rmin"], meta["rmax"], meta["nbin"], meta["scale_arg"], cl, [(o["var"], o["err"], o["counts"]) for o in rec["obs"]],
                     _pairs_detail(rec))
-            ctx.violation(sig, msg, dict(rp, observed=rec.get("obs") or {k: rec[k] for k in ("ids", "sids") if k in rec} or
+            ctx.violation(sig, msg, dict(rp, observed=rec.get("obs") or ([c["obs"] for c in rec["calls"]] if "calls" in rec else None) or {k: rec[k] for k in ("ids", "sids") if k in rec} or
                                          {"cin": rec.get("cin"), "pin": rec.get("pin"), "pfull": rec.get("pfull")}))
     return rejects
 
@@ -576,7 +719,7 @@ def _tlc_batch(ctx, jobs, width=4):
 
 def _consts(B, **kw):
     c = dict(Part="ids", Lat="gc", Scope=B["Scope"], FullDepth=B["FullDepth"], MaxDepth=MAXDEPTH, Levels=B["Levels"],
-             MaxN1=B["MaxN1"], MaxN2=B["MaxN2"], Deviation="none", DoExport=False)
+             MaxN1=B["MaxN1"], MaxN2=B["MaxN2"], Deviation="none", DoExport=False, HistN2=B["HistN2"], HistCalls=B["HistCalls"])
     c.update(kw)
     return c
 
@@ -590,7 +733,8 @@ def run(ctx):
     rs_pts = [list(p) for p in hl.pythagorean_points(15)]
 
     # ---- 1. design level: theorems + mechanism refinement, exhaustive in the scope -----------------
-    small = dict(B, FullDepth=2, Levels=1, MaxN1=1, MaxN2=2, Scope="q")
+    small = dict(B, FullDepth=2, Levels=1, MaxN1=1, MaxN2=2, Scope="q", HistN2=1, HistCalls=2)
+    histB = dict(B, Scope="q")            # histories: small position catalogue, more calls instead
     jobs = [
         dict(what="ids: digit strings <-> numeric range, parent = div 4, name mechanism (depth 0..20)",
              cfg_text=cfg(constants=_consts(B, Part="ids"), invariants=["IdsTheorems", "IdsSmall", "IdsMechRefines"]),
@@ -607,8 +751,15 @@ def run(ctx):
         dict(what="pairs rs: cbincount mechanism refines brute force; reference accepted",
              cfg_text=cfg(constants=_consts(B, Part="pairs", Lat="rs"), invariants=["PairMechRefines", "PairRefAccepted"]),
              workers=4, require=["ChooseP2", "ChooseP1", "ChooseBins", "ChooseScale", "MechStep", "MechDone"], timeout=3000),
+        dict(what="hist gc: (Overwrite ; Bincount)* on one object, every call equals brute force on its own contents",
+             cfg_text=cfg(constants=_consts(histB, Part="hist", Lat="gc"), invariants=["HistMechRefines"]),
+             workers=4, require=["HStart", "HOverwrite", "HBincount"], timeout=3000),
+        dict(what="hist rs: (Overwrite ; Bincount)* on one object, every call equals brute force on its own contents",
+             cfg_text=cfg(constants=_consts(histB, Part="hist", Lat="rs"), invariants=["HistMechRefines"]),
+             workers=4, require=["HStart", "HOverwrite", "HBincount"], timeout=3000),
     ]
-    selftests = [("ids", "miss_level", "IdsMechRefines"), ("cover", "no_inner_test", "CoverMechRefines"),
+    n_main = len(jobs)
+    selftests = [("hist", "stale_cache", "HistMechRefines"), ("ids", "miss_level", "IdsMechRefines"), ("cover", "no_inner_test", "CoverMechRefines"),
                  ("cover", "no_hole_test", "CoverMechRefines"), ("pairs", "trunc_toward_zero", "PairMechRefines"),
                  ("pairs", "lossy_cover", "PairMechRefines"), ("pairs", "maxid_exclusive", "PairMechRefines")]
     for part, dev, inv in selftests:
@@ -621,16 +772,20 @@ def run(ctx):
     exports += [dict(what="export pair-count problems %s" % lat,
                      cfg_text=cfg(constants=_consts(B, Part="pairs", Lat=lat, DoExport=True), next_="NextExport", constraints=["Export"]),
                      workers=1, coverage=False, timeout=3000) for lat in ("gc", "rs")]
+    exports += [dict(what="export bincount histories %s" % lat,
+                     cfg_text=cfg(constants=_consts(histB, Part="hist", Lat=lat, DoExport=True), next_="NextExport", constraints=["Export"]),
+                     workers=1, coverage=False, timeout=3000) for lat in ("gc", "rs")]
     if want("mc"):
         res = _tlc_batch(ctx, jobs)
-        for (part, dev, inv), r in zip(selftests, res[5:]):
+        for (part, dev, inv), r in zip(selftests, res[n_main:]):
             if inv not in r.violated:
                 raise MachineryError("self-test failed: deviation %s does not violate %s" % (dev, inv))
     ex = _tlc_batch(ctx, exports)
     cases = [c for r in ex for c in r.records.get("CASE", [])]
     cover_cases = [c for c in cases if c["kind"] == "cover"]
     pairs_cases = [c for c in cases if c["kind"] == "pairs"]
-    if not cover_cases or not pairs_cases or {c["lat"] for c in cases} != {"gc", "rs"}:
+    hist_cases = [c for c in cases if c["kind"] == "history"]
+    if not cover_cases or not pairs_cases or not hist_cases or {c["lat"] for c in cases} != {"gc", "rs"}:
         raise MachineryError("no cases exported (%d circles, %d pair problems)" % (len(cover_cases), len(pairs_cases)))
 
     ctx.note(star_mapping_worst_deviation_deg=_check_star_mapping(ctx.seed))
@@ -709,6 +864,24 @@ def run(ctx):
         items_probe["pairs"] = next((it for it in items if it[0]["id"] not in rej and all(o["err"] == "none" for o in it[0]["obs"])
                                      and sum(it[0]["obs"][0]["counts"]) > 0), None)
 
+    # ---- 4b. histories on one HTM object with re-used, overwritten buffers ----------------------------------
+    n_hist = 0
+    if want("pairs") or want("hist"):
+        jobsH = []
+        for c in hist_cases + rand_history_cases(rng, B["hist_rand"], "gc", rs_pts) + rand_history_cases(rng, B["hist_rs_rand"], "rs", rs_pts):
+            jobsH += concretise_history(c, rng, B)
+        out = pmap(run_history, jobsH)
+        items = [(rec, meta, {"part": "history", "job": job}) for (rec, meta), job in zip(out, jobsH)]
+        for rec, meta, rp in items:
+            ctx.count({"lat": rec["lat"], "calls": [{k: cl[k] for k in ("p1", "p2", "edges", "scale")} for cl in rec["calls"]]})
+            ctx.evaluations += 4 * len(rec["calls"]) - 1
+        rej = judge(ctx, items, "judge bincount histories on one object (HtmIdsTrace)")
+        n_hist = len(items)
+        if not any(sum(o["counts"]) > 0 for it in items for cl in it[0]["calls"][1:] for o in cl["obs"] if o["err"] == "none"):
+            raise MachineryError("vacuous: no call after an overwrite ever counted a pair")
+        items_probe["history"] = next((it for it in items if it[0]["id"] not in rej and len(it[0]["calls"]) >= 2
+                                       and all(o["err"] == "none" for cl in it[0]["calls"] for o in cl["obs"])), None)
+
     # ---- 5. binding self-test: one corrupted observation per kind must be rejected, its original accepted ----
     import copy
     probe = []
@@ -735,6 +908,14 @@ def run(ctx):
             o["counts"][-1] += 1
         probe += [good, bad]
         expect[len(probe)] = {"extra_in_first_bin", "extra_in_first_bin_with_pairs_below_rmin", "extra_in_later_bin"}
+    if items_probe.get("history"):
+        good = copy.deepcopy(items_probe["history"][0])
+        bad = copy.deepcopy(good)
+        for o in bad["calls"][1]["obs"]:
+            o["counts"][-1] += 1
+        probe += [good, bad]
+        expect[len(probe)] = {"after_overwrite_extra_in_first_bin", "after_overwrite_extra_in_first_bin_with_pairs_below_rmin",
+                              "after_overwrite_extra_in_later_bin"}
     if probe:
         for n, r in enumerate(probe, 1):
             r["id"] = n
@@ -754,14 +935,16 @@ def run(ctx):
                 "x %d concretisations (circle, eps, depth 1..12 within %.0e trixels) + %d seeded circles (of which %d around arbitrary, "
                 "also off-lattice, centres with probes on 8..24 rays), 37..414 probes each (%d circle records); pair counts: every (p2, p1, bins, scale) exported from HtmIdsMC.tla for |p2|<=%d, |p1|<=%d or "
                 "p1=p2 on both lattices + %d seeded problems up to 10 x 30 points (of which %d one-to-many around arbitrary centres; %d problems, 4 ways "
-                "of calling each); a case "
+                "of calling each); histories: every (Overwrite ; Bincount)^%d of HtmIdsMC.tla part hist + %d seeded histories of 3..5 calls on one "
+                "HTM object with the same ndarray objects overwritten in place (%d histories); a case "
                 "is distinct by its abstract record + concretisation" %
                 (len(hl.CIRCLES), B["n_random_pts"], n_lookup, B["Scope"], B["cover_conc"], B["cap_cover"],
                  B["cover_rand"] + B["cover_rs_rand"] + B["cover_star"], B["cover_star"], n_cover, B["MaxN2"], B["MaxN1"],
-                 B["pairs_rand"] + B["pairs_rs_rand"] + B["pairs_star"], B["pairs_star"], n_pairs))
+                 B["pairs_rand"] + B["pairs_rs_rand"] + B["pairs_star"], B["pairs_star"], n_pairs,
+                 B["HistCalls"], B["hist_rand"] + B["hist_rs_rand"], n_hist))
     ctx.exhaustive = True
     ctx.note(bounds={k: v for k, v in B.items()}, exported_circles=len(cover_cases), exported_pair_problems=len(pairs_cases),
-             lookup_positions=n_lookup, circle_records=n_cover, pair_records=n_pairs)
+             lookup_positions=n_lookup, circle_records=n_cover, pair_records=n_pairs, history_records=n_hist, exported_histories=len(hist_cases))
     ctx.assumptions = [
         "great-circle lattice: a position is a + b*eps degrees along one great circle; coordinates are correctly rounded (equator, "
         "meridians) or carry <= 3e-14 degree (tilted circles); a probe is at least eps/2 >= 2e-5 degree from every circle boundary and "
@@ -789,11 +972,17 @@ def replay(ctx, case):
     elif part == "cover":
         rec, meta = run_cover(case["job"])
         items = [(rec, meta, {"part": "cover", "job": case["job"]})]
+    elif part == "history":
+        job = dict(case["job"])
+        if isinstance(job["unit"], str):
+            job["unit"] = F(job["unit"])
+        rec, meta = run_history(job)
+        items = [(rec, meta, {"part": "history", "job": case["job"]})]
     else:
         job = dict(case["job"])
         if isinstance(job["unit"], str):
             job["unit"] = F(job["unit"])
         rec, meta = run_pairs(job)
         items = [(rec, meta, {"part": "pairs", "job": case["job"]})]
-    print("replay observed:", {k: v for k, v in items[0][0].items() if k in ("obs", "ids", "sids", "cin", "pin", "pfull", "err")})
+    print("replay observed:", {k: v for k, v in items[0][0].items() if k in ("obs", "ids", "sids", "cin", "pin", "pfull", "err", "calls")})
     judge(ctx, items, "replay")
